@@ -96,11 +96,20 @@ def impl_eval(case):
             out["results"] = res
             # the enumerated Pareto front (gamma+ = 0, nothing fixed), bounded
             if case.get("front"):
+                import signal
+
+                def _alarm(signum, frame):
+                    raise TimeoutError("front enumeration of <= 3 conditionals still running after 120 s")
+                old_handler = signal.signal(signal.SIGALRM, _alarm)
+                signal.alarm(120)
                 try:
                     fr = c_revision_pareto_front(prior, conds, gamma_plus_zero=True, max_solutions=FRONT_MAX)
                     out["front"] = ("ok", [[int(sol.get(f"gamma-_{k}", -1)) for k, _, _ in case["conds"]] for sol in fr])
                 except Exception as e:  # noqa: BLE001
                     out["front"] = ("err", f"{type(e).__name__}: {e}"[:200])
+                finally:
+                    signal.alarm(0)
+                    signal.signal(signal.SIGALRM, old_handler)
     except Exception as e:  # noqa: BLE001
         out["err"] = f"{type(e).__name__}: {e}"[:200]
     return out
